@@ -46,8 +46,13 @@ pub enum Shape {
     Struct,
     TupleStruct,
     Newtype,
+    /// a unit struct
     Unit,
     Hue,
+    /// a real tuple `(a, b)`
+    Tuple,
+    /// the unit type `()`
+    UnitType,
 }
 
 #[derive(Clone, Copy, Debug, PartialEq, Eq)]
@@ -79,6 +84,8 @@ pub struct OptOps {
     pub replay: fn(&Tok, &Presentation, &Peer, &[f64]) -> Result<Outcome, SimError>,
     /// ... and on serde_json
     pub json_from_str: fn(&str, &[f64]) -> IoResult<Outcome>,
+    /// ... and on ron (which writes a present option differently from the bare value)
+    pub ron_from_str: fn(&str, &[f64]) -> IoResult<Outcome>,
 }
 
 pub struct ArrOps {
@@ -194,6 +201,28 @@ where
 {
     let mut de = serde_json::Deserializer::from_str(text);
     let x: Alpha<C, A> = palette::serde::deserialize_with_optional_alpha(&mut de).map_err(|e| e.to_string())?;
+    de.end().map_err(|e| e.to_string())?;
+    Ok(outcome(x, expect))
+}
+fn opt_ron_alpha<C, A>(text: &str, expect: &[f64]) -> IoResult<Outcome>
+where
+    C: DeserializeOwned,
+    A: palette::stimulus::Stimulus + DeserializeOwned,
+    Alpha<C, A>: Case,
+{
+    let mut de = ron::de::Deserializer::from_str(text).map_err(|e| e.to_string())?;
+    let x: Alpha<C, A> = palette::serde::deserialize_with_optional_alpha(&mut de).map_err(|e| e.to_string())?;
+    de.end().map_err(|e| e.to_string())?;
+    Ok(outcome(x, expect))
+}
+fn opt_ron_pre<C>(text: &str, expect: &[f64]) -> IoResult<Outcome>
+where
+    C: palette::blend::Premultiply + DeserializeOwned,
+    C::Scalar: palette::stimulus::Stimulus + DeserializeOwned,
+    PreAlpha<C>: Case,
+{
+    let mut de = ron::de::Deserializer::from_str(text).map_err(|e| e.to_string())?;
+    let x: PreAlpha<C> = palette::serde::deserialize_with_optional_pre_alpha(&mut de).map_err(|e| e.to_string())?;
     de.end().map_err(|e| e.to_string())?;
     Ok(outcome(x, expect))
 }
@@ -333,7 +362,7 @@ macro_rules! color_body {
             name: concat!("Alpha<", $name, "<", $tn, ">>"), color: $name, wrapper: Wrapper::Alpha, scalar: $tn, shape: Shape::Struct,
             ser_name: $sername, fields: FIELDS, hue_slot: $hue, nvals: N + 1,
             ops: ops::<Alpha<Col, T>>(),
-            opt: Some(OptOps { replay: opt_replay_alpha::<Col, T>, json_from_str: opt_json_alpha::<Col, T> }),
+            opt: Some(OptOps { replay: opt_replay_alpha::<Col, T>, json_from_str: opt_json_alpha::<Col, T>, ron_from_str: opt_ron_alpha::<Col, T> }),
             arr: Some(arr_ops::<Alpha<Col, T>>()),
             inner: Some(concat!($name, "<", $tn, ">")),
         };
@@ -348,7 +377,7 @@ macro_rules! color_body {
             name: concat!("PreAlpha<", $name, "<", $tn, ">>"), color: $name, wrapper: Wrapper::PreAlpha, scalar: $tn, shape: Shape::Struct,
             ser_name: $sername, fields: FIELDS, hue_slot: $hue, nvals: N + 1,
             ops: ops::<PreAlpha<Col>>(),
-            opt: Some(OptOps { replay: opt_replay_pre::<Col>, json_from_str: opt_json_pre::<Col> }),
+            opt: Some(OptOps { replay: opt_replay_pre::<Col>, json_from_str: opt_json_pre::<Col>, ron_from_str: opt_ron_pre::<Col> }),
             arr: None,
             inner: Some(concat!($name, "<", $tn, ">")),
         });
@@ -489,6 +518,23 @@ pub mod user {
     #[derive(PartialEq, Debug, Clone, Copy)]
     pub struct Marker;
 
+    /// A tuple struct without fields (`serde_various_types` in palette wraps one in `Alpha`).
+    #[derive(Serialize, Deserialize, PartialEq, Debug, Clone, Copy)]
+    pub struct UnitTuple();
+
+    impl Case for () {
+        fn build(_v: &[f64]) -> Self {}
+        fn comps(&self) -> Vec<u64> { vec![] }
+    }
+    impl Case for UnitTuple {
+        fn build(_v: &[f64]) -> Self { UnitTuple() }
+        fn comps(&self) -> Vec<u64> { vec![] }
+    }
+    impl Case for (f32, f32) {
+        fn build(v: &[f64]) -> Self { (v[0] as f32, v[1] as f32) }
+        fn comps(&self) -> Vec<u64> { vec![(self.0 as f64).to_bits(), (self.1 as f64).to_bits()] }
+    }
+
     impl Case for UnitColor {
         fn build(_v: &[f64]) -> Self { UnitColor }
         fn comps(&self) -> Vec<u64> { vec![] }
@@ -518,6 +564,9 @@ pub mod user {
     alpha_of!(NewtypeColor, 1);
     alpha_of!(TupleColor, 3);
     alpha_of!(NamedColor<Marker>, 3);
+    alpha_of!((), 0);
+    alpha_of!(UnitTuple, 0);
+    alpha_of!((f32, f32), 2);
 
     macro_rules! user_desc {
         ($plain:ident, $alpha:ident, $t:ty, $name:literal, $sername:literal, $shape:expr, $fields:expr, $n:expr) => {
@@ -528,7 +577,7 @@ pub mod user {
             pub static $alpha: CaseDesc = CaseDesc {
                 name: concat!("Alpha<", $name, ">"), color: $name, wrapper: Wrapper::Alpha, scalar: "f32", shape: $shape, ser_name: $sername,
                 fields: $fields, hue_slot: None, nvals: $n + 1, ops: ops::<Alpha<$t, f32>>(),
-                opt: Some(OptOps { replay: opt_replay_alpha::<$t, f32>, json_from_str: opt_json_alpha::<$t, f32> }),
+                opt: Some(OptOps { replay: opt_replay_alpha::<$t, f32>, json_from_str: opt_json_alpha::<$t, f32>, ron_from_str: opt_ron_alpha::<$t, f32> }),
                 arr: None, inner: Some($name),
             };
         };
@@ -537,6 +586,9 @@ pub mod user {
     user_desc!(NEWTYPE, NEWTYPE_A, NewtypeColor, "NewtypeColor", "NewtypeColor", Shape::Newtype, &[], 1);
     user_desc!(TUPLE, TUPLE_A, TupleColor, "TupleColor", "TupleColor", Shape::TupleStruct, &[], 3);
     user_desc!(NAMED, NAMED_A, NamedColor<Marker>, "NamedColor", "NamedColor", Shape::Struct, &["cyan", "magenta", "yellow"], 3);
+    user_desc!(UNITTYPE, UNITTYPE_A, (), "()", "", Shape::UnitType, &[], 0);
+    user_desc!(UNITTUPLE, UNITTUPLE_A, UnitTuple, "UnitTuple", "UnitTuple", Shape::TupleStruct, &[], 0);
+    user_desc!(PAIR, PAIR_A, (f32, f32), "(f32,f32)", "", Shape::Tuple, &[], 2);
 }
 
 // ---- packed colors through as_uint
@@ -615,7 +667,10 @@ pub fn all_cases() -> Vec<&'static CaseDesc> {
     for h in [&rgbhue::F32, &rgbhue::F64, &labhue::F32, &labhue::F64, &luvhue::F32, &luvhue::F64, &oklabhue::F32, &oklabhue::F64, &cam16hue::F32, &cam16hue::F64] {
         v.push(h);
     }
-    for u in [&user::UNIT, &user::UNIT_A, &user::NEWTYPE, &user::NEWTYPE_A, &user::TUPLE, &user::TUPLE_A, &user::NAMED, &user::NAMED_A] {
+    for u in [
+        &user::UNIT, &user::UNIT_A, &user::NEWTYPE, &user::NEWTYPE_A, &user::TUPLE, &user::TUPLE_A, &user::NAMED, &user::NAMED_A,
+        &user::UNITTYPE, &user::UNITTYPE_A, &user::UNITTUPLE, &user::UNITTUPLE_A, &user::PAIR, &user::PAIR_A,
+    ] {
         v.push(u);
     }
     v
